@@ -313,7 +313,9 @@ impl<'i, R: RuleType> Pair<'i, R> {
 impl<'i, R: RuleType> Pairs<'i, R> {
     /// Create a new `Pairs` iterator containing just the single `Pair`.
     pub fn single(pair: Pair<'i, R>) -> Self {
-        let end = pair.pair();
+        // `pairs::new` takes an exclusive upper bound, so the matching `End` token
+        // has to be included.
+        let end = pair.pair() + 1;
         pairs::new(
             pair.queue,
             pair.input,
